@@ -123,6 +123,7 @@ func runC11(c *Case) {
 	h := &vhistory{w: w}
 	base := walk.Base(w.prefix)
 	cols := hcols
+	w.st.PageSize = []int{0, 0, 1, 2}[c.Index%4]
 	fail := func(sig, msg string) { c.Violate("C11:"+sig, msg, w.log) }
 	rereadN := 0
 	reread := func(s *vsnap, at int, how int) bool {
